@@ -85,6 +85,9 @@ pub struct C09 {
     /// holds the stdout lock, a pipe nobody reads): whoever prints blocks for ever
     #[serde(default)]
     pub stdout_stalled: bool,
+    /// one item that takes far longer than all others (index, ticks): everything behind it has to wait
+    #[serde(default)]
+    pub straggler: Option<(u32, u32)>,
 }
 
 pub const BOUNDED_N: usize = 400;
@@ -294,7 +297,16 @@ impl Scenario for C09 {
         let hinted = rng.chance(0.5);
         // only where a panic is injected: that is where the program might want to print
         let stdout_stalled = !matches!(fault, Fault::Drop { .. }) && rng.chance(0.3);
-        C09 { run_seed, cell, mode: SMode::draw(&mut rng), shape, w, n, fault, delays, hinted, stdout_stalled }
+        let mode = SMode::draw(&mut rng);
+        // plain drop cells over pipes of the library's own building blocks: a straggler right
+        // behind what the consumer takes (0.2 s .. 2 s of virtual time)
+        let straggler = match (&fault, &shape) {
+            (Fault::Drop { k, .. }, Shape::Pipe | Shape::PipeBuffered(_)) if w >= 1 && rng.chance(0.2) => {
+                Some((*k as u32 + rng.below(w as u64 + 2) as u32, rng.range(20_000, 200_000) as u32))
+            }
+            _ => None,
+        };
+        C09 { run_seed, cell, mode, shape, w, n, fault, delays, hinted, stdout_stalled, straggler }
     }
 
     fn run_seed(&self) -> u64 {
@@ -328,6 +340,9 @@ impl Scenario for C09 {
             f(&mut c);
             v.push(c);
         };
+        if self.straggler.is_some() {
+            push(&|c| c.straggler = None);
+        }
         match self.fault.clone() {
             Fault::Drop { k, idle } => {
                 if k > 0 {
@@ -435,7 +450,7 @@ impl Scenario for C09 {
             _ => (0, 0),
         };
         // a background thread that polls every 20 ticks during the pause costs two decisions per poll
-        spec.step_cap = env_u64("VERIF_C09_CAP", 300_000 + 10_000 * consumed + idle / 2);
+        spec.step_cap = env_u64("VERIF_C09_CAP", 300_000 + 10_000 * consumed + idle / 2 + self.straggler.map_or(0, |(_, t)| t as u64));
         if let Plan::Replay { traces, strict } = plan {
             spec = spec.replaying(traces.first().cloned().unwrap_or_default(), *strict);
         }
@@ -466,6 +481,7 @@ impl Scenario for C09 {
                 rt::stall_stdout();
             }
             let delays = Arc::new(sc.delays.clone());
+            let straggler = sc.straggler;
             let fn_panic_at = match sc.fault {
                 Fault::FnPanic { j, .. } => Some(j as u64),
                 _ => None,
@@ -507,9 +523,12 @@ impl Scenario for C09 {
             };
             let f: Pipeline<u64, u64> = Arc::new(move |x: u64| {
                 rt::log(Kind::FnStart, x, 0);
-                let d = delays[x as usize % delays.len()];
+                let d = match straggler {
+                    Some((at, ticks)) if at as u64 == x => ticks as u64,
+                    _ => delays[x as usize % delays.len()] as u64,
+                };
                 if d > 0 {
-                    rt::sleep_ticks(d as u64);
+                    rt::sleep_ticks(d);
                 }
                 if Some(x) == fn_panic_at {
                     rt::log(Kind::Fault, 2, x);
@@ -864,6 +883,9 @@ impl C09 {
                 stats.fault("consumer_drop");
                 if idle > 0 {
                     stats.fault("consumer_idle");
+                }
+                if self.straggler.is_some() {
+                    stats.fault("straggler_item_of_0.2_to_2_s");
                 }
                 match &r.status {
                     Status::Completed => {}
